@@ -9,6 +9,8 @@ Driver for C07.  One line in, one line out.
     r* = repaired rough (flat argmax), a* = rough as on the pinned tree (separate argmaxes),
     p* = refined point on top of the repaired rough, q* = on top of the as-is rough;
     invalid channel: `nan nan 0`, refined `nan nan`; zero patch sum: `inf inf`.
+
+`unravel <w> <k>` → `k % w  k / w`
 -/
 open SleapVerif SleapVerif.Proto SleapVerif.Peaks
 
@@ -40,9 +42,16 @@ def pGlobal : P String := do
     s!"{gStr g} {gStr a} {rStr r g (fixd.getD k ⟨none, none, 0⟩)} {rStr r a (asis.getD k ⟨none, none, 0⟩)}"
   pure (" ".intercalate items)
 
+/-- `unravel <w> <k>` → `x y` (exact Nat arithmetic; used for maps with more than 2^24 cells) -/
+def pUnravel : P String := do
+  let w ← nat; let k ← nat
+  let xy := unravel w k
+  pure s!"{xy.1} {xy.2}"
+
 def handle (line : String) : String :=
   match tokens line with
   | "global" :: ts => (runP pGlobal ts).getD "parse-error"
+  | "unravel" :: ts => (runP pUnravel ts).getD "parse-error"
   | _ => "unknown-op"
 
 def main : IO Unit := mainLoop' handle
